@@ -103,6 +103,9 @@ theorem mem_active_iff (fs : List Fault) (f : Nat) : ∀ (l : List Pop) (ever ac
       have m1 : f ∈ act.filter (fun x => !partOnF fs k x) ↔ f ∈ act := by
         simp [List.mem_filter, hnp]
       simp [m1, NoDeact, ActIn]
+    | setcap t v =>
+      simp only [wfFrom] at hwf
+      simpa [actStep, NoDeact, ActIn] using mem_active_iff fs f rest ever act hwf hsub nd hcl'
     | cancel t g =>
       simp only [wfFrom] at hwf
       simpa [actStep, NoDeact, ActIn] using mem_active_iff fs f rest ever act hwf hsub nd hcl'
